@@ -37,7 +37,8 @@ class ParglareError(Exception):
 def get_line_col_at_position(
     text: str, pos: int
 ) -> Tuple[Optional[int], Optional[int], Optional[str], Optional[str]]:
-    lines = text.splitlines(keepends=True)
+    # An empty text has no lines; treat it as a single empty line.
+    lines = text.splitlines(keepends=True) or [""]
 
     if pos > len(text):
         # Position out of range
